@@ -377,6 +377,8 @@ def gen_scenario(seed, force_cfg=None, profile=None, drive=None):
         # documented as not interruptible, so the protocol's own initialize / finish still runs (seeded C05_L)
         scn["dispatcher"] = {"when": r2.choice(["initialize", "initialize", "timer", "telemetry"]),
                              "oneShot": r2.random() < 0.5, "interrupt": r2.random() < 0.5}
+    if r2.random() < 0.2:
+        scn["genericCommands"] = True
     if r2.random() < 0.15:
         # the simulation is configured with debug=True and execution logging on: every log statement of the
         # package is evaluated (the records go to a null handler); logging must not change behaviour (seeded C08_L)
